@@ -83,7 +83,7 @@ TDone ==
 
 \* one _process_event: any event of the batch with minimal (timestamp, precedence)
 TProc ==
-    /\ IsEvent("proc") /\ pc = "Proc" /\ batch # <<>>
+    /\ IsEvent("proc") /\ pc = "Proc" /\ batch # <<>> /\ pc' = "Proc"
     /\ \E i \in 1..Len(batch) :
           /\ EKey(batch[i]) = EKey(batch[1])
           /\ batch[i].kind = Ev.kind /\ batch[i].ts = Ev.ts /\ batch[i].id = Ev.id
